@@ -588,6 +588,19 @@ fn dedent_bytes(source: &[u8], is_utf8_byte_string: bool) -> Result<Vec<u8>, Str
   )
 }
 
+/// Sum of two `.plus` operands as a uint value, or an error when the result
+/// is negative or does not fit (instead of overflowing / wrapping).
+fn plus_uint(a: i128, b: i128) -> Result<usize, String> {
+  use std::convert::TryFrom;
+  usize::try_from(a + b).map_err(|_| "result of .plus operation is out of range".to_string())
+}
+
+/// Sum of two `.plus` operands as an int value, or an error when it does not fit.
+fn plus_int(a: i128, b: i128) -> Result<isize, String> {
+  use std::convert::TryFrom;
+  isize::try_from(a + b).map_err(|_| "result of .plus operation is out of range".to_string())
+}
+
 /// Numeric addition of target and controller. The Vec return type is to
 /// accommodate more than one type choice in the controller
 pub fn plus_operation<'a>(
@@ -600,13 +613,13 @@ pub fn plus_operation<'a>(
     Type2::UintValue { value, .. } => match controller {
       Type2::UintValue {
         value: controller, ..
-      } => values.push((value + controller).into()),
+      } => values.push(plus_uint(*value as i128, *controller as i128)?.into()),
       Type2::IntValue {
         value: controller, ..
-      } => values.push(((*value as isize + controller) as usize).into()),
+      } => values.push(plus_uint(*value as i128, *controller as i128)?.into()),
       Type2::FloatValue {
         value: controller, ..
-      } => values.push(((*value as isize + *controller as isize) as usize).into()),
+      } => values.push(plus_uint(*value as i128, *controller as isize as i128)?.into()),
       Type2::Typename { ident, .. } => {
         let nv = numeric_values_from_ident(cddl, ident);
         if nv.is_empty() {
@@ -646,13 +659,13 @@ pub fn plus_operation<'a>(
     Type2::IntValue { value, .. } => match controller {
       Type2::IntValue {
         value: controller, ..
-      } => values.push((value + controller).into()),
+      } => values.push(plus_int(*value as i128, *controller as i128)?.into()),
       Type2::UintValue {
         value: controller, ..
-      } => values.push((value + *controller as isize).into()),
+      } => values.push(plus_int(*value as i128, *controller as i128)?.into()),
       Type2::FloatValue {
         value: controller, ..
-      } => values.push((value + *controller as isize).into()),
+      } => values.push(plus_int(*value as i128, *controller as isize as i128)?.into()),
       Type2::Typename { ident, .. } => {
         let nv = numeric_values_from_ident(cddl, ident);
         if nv.is_empty() {
